@@ -461,16 +461,41 @@ fn run(run: &mut Run) {
     run.enumerate("prefixes", *prefix_table().last().unwrap(), &prefix_case);
     run.enumerate("token-faults", *fault_table().last().unwrap(), &token_fault_case);
     run.enumerate("floods", flood_total(), &flood_case);
+    run.enumerate("header-statements", header_total(), &header_case);
     run.explore("odd-characters", run.tier.pick(150_000, 1_500_000), 16, &insertion_case);
     run.explore("token-soup", run.tier.pick(150_000, 1_500_000), 400, &soup_case);
     run.enumerate("alloc-scaling", run.tier.pick(4, 6), &scaling_case);
     run.enumerate("time-scaling", 14, &time_case);
+}
+// ---- header statements against the names they govern -----------------------------------------------------------
+/// BUSBITCHARS / DIVIDERCHAR declare characters that pin and macro names then contain: every declared pair
+/// (ordinary, reversed, one character twice, multi-byte) against every name shape (index in order, delimiters the
+/// wrong way round, one of the two, an empty index, the delimiter as the whole name), with the header statement
+/// before or after the macro.
+const PAIRS: &[&str] = &["[]", "<>", "||", "__", "xx", "][", "«»", "[", "", "[[]]", "\\/"];
+const BUS_NAMES: &[&str] = &["d[3]", "d]3[", "d][", "a>b<c", "d|3", "reset_", "rx", "d[]", "]d[", "»x«", "[", "]", "d[3][0]", "d<12>", "d|3|", "«", "x«3»"];
+fn header_total() -> u64 {
+    (PAIRS.len() * BUS_NAMES.len() * 4) as u64
+}
+fn header_case(src: &mut Src, ctx: &mut Ctx) -> Result<(), String> {
+    let i = src.u64() % header_total();
+    let pair = PAIRS[(i as usize) % PAIRS.len()];
+    let name = BUS_NAMES[(i as usize / PAIRS.len()) % BUS_NAMES.len()];
+    let form = i as usize / PAIRS.len() / BUS_NAMES.len();
+    let stmt = if form % 2 == 0 { format!("BUSBITCHARS \"{}\" ;", pair) } else { format!("DIVIDERCHAR \"{}\" ;", pair.chars().next().map(|c| c.to_string()).unwrap_or_default()) };
+    let mac = format!("MACRO m{0} PIN {0} DIRECTION INPUT ; END {0} END m{0}", name);
+    let txt = if form / 2 == 0 { format!("VERSION 5.8 ; {} {} END LIBRARY", stmt, mac) } else { format!("{} {} END LIBRARY", mac, stmt) };
+    ctx.label("header statement against a name");
+    ctx.nontrivial(hash_of(&txt));
+    ctx.sample("header against name", || txt.clone());
+    check_text(&txt, ctx).map_err(|e| format!("text {:?}: {}", txt, e))
 }
 fn case(sub: &str) -> Option<Box<CaseFn<'static>>> {
     match sub {
         "prefixes" => Some(Box::new(prefix_case)),
         "token-faults" => Some(Box::new(token_fault_case)),
         "floods" => Some(Box::new(flood_case)),
+        "header-statements" => Some(Box::new(header_case)),
         "odd-characters" => Some(Box::new(insertion_case)),
         "token-soup" => Some(Box::new(soup_case)),
         "alloc-scaling" => Some(Box::new(scaling_case)),
